@@ -1,4 +1,248 @@
+import BobModel.Model.StateFS
 import BobModel.Util.Proto
-open Lean Proto
-/-- stub driver of C10: replaced when the model of this property is built -/
-def main : IO Unit := runPure fun _ => err "unsupported"
+open Lean Proto StateFS
+
+/-
+requests (one JSON object per line):
+
+ {"op":"run","invocations":[[call,...],...]}
+      call = {"m":"setAsync"} | {"m":"setSync"} | {"m":<mutator>,"a":[args]}
+      the API-level model (σ = St, μ = Mut) on an empty directory; reply
+      {"invocations":[{"init":{"res":..,"ops":[..]},"calls":[{"ops":[..],"ret":..,"raised":b}],"fin":{"ops":[..]}}],"files":{..}}
+      ops: {"o":"createExcl","n":"lock"} ... {"o":"append","n":"dirty","snap":<state>} {"o":"rename","n":"dirty","to":"new"}
+ {"op":"enc","hex":p}      -> {"hex": p ++ trailer(p)}
+ {"op":"verify","hex":d}   -> {"ok": bool}
+ {"op":"recover","files":{"<name>":{"hex":..,"synced":b}},"garble":{"<name>":hex},"table":[{"hex":..,"version":n}]}
+      byte-level model (σ = index into `table`, the real pickles): `recover fs g` then `initRun`; reply
+      {"res":"ok","loaded":i|null} | {"res":"locked"} | {"res":"decode"|"tooOld"|"tooNew"}, "ops":[..], "files":{..}
+ {"op":"names"}            -> the four file names
+-/
+
+def nameStr : StateFS.Name → String
+  | .lock => "lock" | .pickle => "pickle" | .new => "new" | .dirty => "dirty"
+
+def nameOf? : String → Option StateFS.Name
+  | "lock" => some .lock | "pickle" => some .pickle | "new" => some .new | "dirty" => some .dirty | _ => none
+
+def kvJson {α : Type} (f : α → Json) (m : KV α) : Json := Json.mkObj (m.map fun e => (e.1, f e.2))
+
+def jenkJson (j : Jenk) : Json :=
+  Json.mkObj [("config", Json.str j.config), ("jobs", kvJson Json.str j.jobs),
+    ("counters", kvJson (fun n : Nat => Json.num n) j.counters), ("dirs", kvJson Json.str j.dirs)]
+
+def stJson (s : St) : Json :=
+  Json.mkObj [("counters", kvJson (fun n : Nat => Json.num n) s.counters),
+    ("dirs", kvJson (fun d : String × Bool => Json.arr #[Json.str d.1, Json.bool d.2]) s.dirs),
+    ("results", kvJson Json.str s.results), ("inputs", kvJson Json.str s.inputs),
+    ("jenkins", kvJson jenkJson s.jenkins), ("dirStates", kvJson Json.str s.dirStates),
+    ("layerStates", kvJson Json.str s.layerStates), ("buildState", Json.str s.buildState),
+    ("variantIds", kvJson Json.str s.variantIds), ("atticDirs", kvJson Json.str s.atticDirs),
+    ("createdWithVersion", Json.num s.createdWithVersion), ("storagePath", kvJson Json.str s.storagePath)]
+
+def kvOf {α : Type} (f : Json → α) (j : Json) : KV α :=
+  match j with
+  | .obj kvs => kvs.toList.map fun (k, v) => (k, f v)
+  | _ => []
+
+def jStr (j : Json) : String := match j with | .str s => s | _ => ""
+def jNat (j : Json) : Nat := (j.getNat?.toOption).getD 0
+def jBool (j : Json) : Bool := match j with | .bool b => b | _ => false
+
+def jenkOf (j : Json) : Jenk :=
+  { config := getStr j "config", jobs := kvOf jStr (j.getObjValD "jobs"),
+    counters := kvOf jNat (j.getObjValD "counters"), dirs := kvOf jStr (j.getObjValD "dirs") }
+
+def stOf (j : Json) : St :=
+  { counters := kvOf jNat (j.getObjValD "counters"),
+    dirs := kvOf (fun d => match d with
+      | .arr a => (jStr (a.getD 0 .null), jBool (a.getD 1 .null))
+      | _ => ("", false)) (j.getObjValD "dirs"),
+    results := kvOf jStr (j.getObjValD "results"), inputs := kvOf jStr (j.getObjValD "inputs"),
+    jenkins := kvOf jenkOf (j.getObjValD "jenkins"), dirStates := kvOf jStr (j.getObjValD "dirStates"),
+    layerStates := kvOf jStr (j.getObjValD "layerStates"), buildState := getStr j "buildState",
+    variantIds := kvOf jStr (j.getObjValD "variantIds"), atticDirs := kvOf jStr (j.getObjValD "atticDirs"),
+    createdWithVersion := getNat j "createdWithVersion", storagePath := kvOf jStr (j.getObjValD "storagePath") }
+
+/-- the driver's pickle of `St`: "<version> <length>:" ++ compressed JSON (self delimiting) -/
+def stPickle (v : Nat) (s : St) : Bytes :=
+  let body := (Json.compress (stJson s)).toUTF8.toList
+  (toString v ++ " " ++ toString body.length ++ ":").toUTF8.toList ++ body
+
+def takeNat (d : Bytes) : Nat × Bytes :=
+  let ds := d.takeWhile fun b => 48 ≤ b.toNat && b.toNat ≤ 57
+  (ds.foldl (fun n b => n * 10 + (b.toNat - 48)) 0, d.drop ds.length)
+
+def stUnpickle (d : Bytes) : Option (Nat × St) :=
+  let (v, r1) := takeNat d
+  match r1 with
+  | 32 :: r2 =>
+    let (n, r3) := takeNat r2
+    match r3 with
+    | 58 :: r4 =>
+      if r4.length < n then none else
+      match String.fromUTF8? ⟨(r4.take n).toArray⟩ with
+      | none => none
+      | some txt => match Json.parse txt with
+        | .ok j => some (v, stOf j)
+        | .error _ => none
+    | _ => none
+  | _ => none
+
+def apiCfg : Cfg St Mut :=
+  { pickle := stPickle, unpickle := stUnpickle, up := fun _ s => s, default := St.default,
+    step := fun s m => let r := stepSt s m; (r.st, r.save) }
+
+def argS (a : List Json) (i : Nat) : String := jStr (a.getD i .null)
+
+def mutOf (m : String) (a : List Json) : Option Mut :=
+  match m with
+  | "getByNameDirectory" => some (.getByNameDirectory (argS a 0) (argS a 1) (jBool (a.getD 2 .null)))
+  | "setResultHash" => some (.setResultHash (argS a 0) (argS a 1))
+  | "setInputHashes" => some (.setInputHashes (argS a 0) (argS a 1))
+  | "delInputHashes" => some (.delInputHashes (argS a 0))
+  | "setLayerState" => some (.setLayerState (argS a 0) (argS a 1))
+  | "delLayerState" => some (.delLayerState (argS a 0))
+  | "setDirectoryState" => some (.setDirectoryState (argS a 0) (argS a 1))
+  | "delDirectoryState" => some (.delDirectoryState (argS a 0))
+  | "setVariantId" => some (.setVariantId (argS a 0) (argS a 1))
+  | "setStoragePath" => some (.setStoragePath (argS a 0) (argS a 1))
+  | "resetWorkspaceState" => some (.resetWorkspaceState (argS a 0) (match a.getD 1 .null with | .str s => some s | _ => none))
+  | "setAtticDirectoryState" => some (.setAtticDirectoryState (argS a 0) (argS a 1))
+  | "delAtticDirectoryState" => some (.delAtticDirectoryState (argS a 0))
+  | "addJenkins" => some (.addJenkins (argS a 0) (argS a 1))
+  | "delJenkins" => some (.delJenkins (argS a 0))
+  | "getJenkinsByNameDirectory" => some (.getJenkinsByNameDirectory (argS a 0) (argS a 1) (argS a 2))
+  | "setJenkinsConfig" => some (.setJenkinsConfig (argS a 0) (argS a 1))
+  | "addJenkinsJob" => some (.addJenkinsJob (argS a 0) (argS a 1) (argS a 2))
+  | "delJenkinsJob" => some (.delJenkinsJob (argS a 0) (argS a 1))
+  | "setJenkinsJobConfig" => some (.setJenkinsJobConfig (argS a 0) (argS a 1) (argS a 2))
+  | "setBuildState" => some (.setBuildState (argS a 0))
+  | _ => none
+
+def callOf (j : Json) : Option (Call Mut) :=
+  match getStr j "m" with
+  | "setAsync" => some .setAsync
+  | "setSync" => some .setSync
+  | m => (mutOf m (getArr j "a")).map .mut
+
+def opJson (snap : Bytes → Json) : Op → Json
+  | .createExcl n => Json.mkObj [("o", "createExcl"), ("n", nameStr n)]
+  | .openTrunc n => Json.mkObj [("o", "openTrunc"), ("n", nameStr n)]
+  | .append n c => Json.mkObj [("o", "append"), ("n", nameStr n), ("data", snap c)]
+  | .fsync n => Json.mkObj [("o", "fsync"), ("n", nameStr n)]
+  | .rename a b => Json.mkObj [("o", "rename"), ("n", nameStr a), ("to", nameStr b)]
+  | .unlink n => Json.mkObj [("o", "unlink"), ("n", nameStr n)]
+  | .stat n => Json.mkObj [("o", "stat"), ("n", nameStr n)]
+  | .read n => Json.mkObj [("o", "read"), ("n", nameStr n)]
+
+/-- content written by the API-level model, shown as the decoded snapshot plus whether the trailer verifies -/
+def apiSnap (c : Bytes) : Json :=
+  match stUnpickle c with
+  | some (v, s) => Json.mkObj [("version", Json.num v), ("snap", stJson s), ("verifies", Json.bool (verify c))]
+  | none => Json.mkObj [("undecodable", Bytes.toHex c)]
+
+def opsJson {σ : Type} (snap : Bytes → Json) (es : List (Ev σ)) : Json :=
+  Json.arr ((evOps es).map (opJson snap)).toArray
+
+def filesJson (snap : Bytes → Json) (fs : FS) : Json :=
+  Json.mkObj (StateFS.Name.all.filterMap fun n => (fs n).map fun f =>
+    (nameStr n, Json.mkObj [("data", snap f.data), ("synced", Json.bool f.synced)]))
+
+def retJson : Ret → Json
+  | .none => Json.null
+  | .str s => Json.mkObj [("str", Json.str s)]
+  | .keyError => Json.str "KeyError"
+
+def loadErrStr : LoadErr → String
+  | .decode => "decode" | .tooOld => "tooOld" | .tooNew => "tooNew"
+
+def initResJson {σ : Type} (f : σ → Json) : Except InitErr (Option σ) → List (String × Json)
+  | .ok none => [("res", "ok"), ("loaded", Json.null)]
+  | .ok (some s) => [("res", "ok"), ("loaded", f s)]
+  | .error .locked => [("res", "locked")]
+  | .error (.load e) => [("res", Json.str (loadErrStr e))]
+
+/-- run the calls of one invocation on a live instance, collecting the per-call replies -/
+def runCallsJ (fs : FS) (mem : Mem St) : List Json → FS × Mem St × List Json
+  | [] => (fs, mem, [])
+  | j :: rest =>
+    match callOf j with
+    | none => let r := runCallsJ fs mem rest; (r.1, r.2.1, err "bad-call" :: r.2.2)
+    | some cl =>
+      let ret : Json := match cl with
+        | .mut m => retJson (stepSt mem.cur m).ret
+        | _ => Json.null
+      let r := callStep apiCfg mem cl
+      let reply := Json.mkObj [("ops", opsJson apiSnap r.2.1), ("ret", ret), ("raised", Json.bool r.2.2)]
+      let r' := runCallsJ (applyEvs fs r.2.1) r.1 rest
+      (r'.1, r'.2.1, reply :: r'.2.2)
+
+def runInvJ (fs : FS) (calls : List Json) : FS × Json :=
+  let i := initRun apiCfg fs
+  let fs1 := applyEvs fs i.evs
+  let initJ := Json.mkObj (initResJson stJson i.res ++ [("ops", opsJson apiSnap i.evs)])
+  match i.res with
+  | .error _ => (fs1, Json.mkObj [("init", initJ)])
+  | .ok x =>
+    let (fs2, mem, replies) := runCallsJ fs1 (memOf apiCfg x) calls
+    let fe := finalizeEvs fs2 mem
+    (applyEvs fs2 fe,
+     Json.mkObj [("init", initJ), ("calls", Json.arr replies.toArray),
+       ("fin", Json.mkObj [("ops", opsJson apiSnap fe), ("raised", Json.bool (!finalizeOk mem))])])
+
+def runHistJ (fs : FS) : List Json → FS × List Json
+  | [] => (fs, [])
+  | inv :: rest =>
+    let calls := match inv with | .arr a => a.toList | _ => []
+    let r := runInvJ fs calls
+    let r' := runHistJ r.1 rest
+    (r'.1, r.2 :: r'.2)
+
+/-! byte level: σ = index into the table of real pickles -/
+
+def isPrefix : Bytes → Bytes → Bool
+  | [], _ => true
+  | _ :: _, [] => false
+  | a :: as, b :: bs => a == b && isPrefix as bs
+
+def tableCfg (table : List (Bytes × Nat)) : Cfg Nat Nat :=
+  { pickle := fun _ i => (table.getD i ([], 0)).1,
+    unpickle := fun d =>
+      let rec go (l : List (Bytes × Nat)) (i : Nat) : Option (Nat × Nat) :=
+        match l with
+        | [] => none
+        | (p, v) :: rest => if !p.isEmpty && isPrefix p d then some (v, i) else go rest (i + 1)
+      go table 0,
+    up := fun _ s => s, default := 0, step := fun _ m => (m, true) }
+
+def rawSnap (c : Bytes) : Json := Json.str (Bytes.toHex c)
+
+def fsOf (j : Json) : FS :=
+  match j with
+  | .obj kvs => kvs.toList.foldl (fun fs (k, v) =>
+      match nameOf? k with
+      | some n => fs.set n (some ⟨hexBytes v "hex", getBool v "synced"⟩)
+      | none => fs) FS.empty
+  | _ => FS.empty
+
+def garbleOf (j : Json) : Garble := fun (n : StateFS.Name) d =>
+  match j.getObjVal? (nameStr n) with
+  | .ok (.str h) => (Bytes.ofHex h).getD d
+  | _ => d
+
+def main : IO Unit := runPure fun j =>
+  match getStr j "op" with
+  | "run" =>
+    let r := runHistJ FS.empty (getArr j "invocations")
+    Json.mkObj [("invocations", Json.arr r.2.toArray), ("files", filesJson apiSnap r.1)]
+  | "enc" => Json.mkObj [("hex", Bytes.toHex (enc (hexBytes j "hex")))]
+  | "verify" => Json.mkObj [("ok", Json.bool (verify (hexBytes j "hex")))]
+  | "recover" =>
+    let table := (getArr j "table").map fun e => (hexBytes e "hex", getNat e "version")
+    let cfg := tableCfg table
+    let fs := recover (fsOf (j.getObjValD "files")) (garbleOf (j.getObjValD "garble"))
+    let i := initRun cfg fs
+    Json.mkObj (initResJson (fun n : Nat => Json.num n) i.res ++
+      [("ops", opsJson rawSnap i.evs), ("files", filesJson rawSnap (applyEvs fs i.evs))])
+  | "names" => Json.mkObj (StateFS.Name.all.map fun n => (nameStr n, Json.str n.path))
+  | _ => err "bad-op"
